@@ -1205,6 +1205,66 @@ theorem gen_K_symm (I : F) (μ : Fin 6 → Mode F) (k : Fin 6 → F) (i j : Fin 
 
 end entry
 
+section defect
+variable {F : Type} [Field F] [CharZero F]
+
+/-- the jump of the coded displacement, without any hypothesis on the eigen-solution: `Σₐ kₐ Aₐ⊗Lₐ` applied to `b`. -/
+theorem dispJump_eq_chkAL (pi I : F) (s : Setup F) (μ : Fin 6 → Mode F) (k : Fin 6 → F)
+    (hpi : pi ≠ 0) (hI : I ≠ 0) (i : Fin 3) :
+    dispJump pi I s μ k i = sum3 fun j => chkAL μ k i j * s.b j := by
+  simp only [dispJump, dispAt, dispCoef, kLb, chkAL, sum6, sum3, dot, Nat.cast_ofNat, Nat.cast_one]
+  have u0 := updn_sq (F := F) 0; have u1 := updn_sq (F := F) 1; have u2 := updn_sq (F := F) 2
+  have u3 := updn_sq (F := F) 3; have u4 := updn_sq (F := F) 4; have u5 := updn_sq (F := F) 5
+  field_simp
+  linear_combination (k 0 * (μ 0).A i * ((μ 0).L 0 * s.b 0 + (μ 0).L 1 * s.b 1 + (μ 0).L 2 * s.b 2)) * u0 + (k 1 * (μ 1).A i * ((μ 1).L 0 * s.b 0 + (μ 1).L 1 * s.b 1 + (μ 1).L 2 * s.b 2)) * u1 + (k 2 * (μ 2).A i * ((μ 2).L 0 * s.b 0 + (μ 2).L 1 * s.b 1 + (μ 2).L 2 * s.b 2)) * u2 + (k 3 * (μ 3).A i * ((μ 3).L 0 * s.b 0 + (μ 3).L 1 * s.b 1 + (μ 3).L 2 * s.b 2)) * u3 + (k 4 * (μ 4).A i * ((μ 4).L 0 * s.b 0 + (μ 4).L 1 * s.b 1 + (μ 4).L 2 * s.b 2)) * u4 + (k 5 * (μ 5).A i * ((μ 5).L 0 * s.b 0 + (μ 5).L 1 * s.b 1 + (μ 5).L 2 * s.b 2)) * u5
+
+/-- ... hence the defect of the jump is the defect of the completeness relation applied to `b`. -/
+theorem dispJump_defect (pi I : F) (s : Setup F) (μ : Fin 6 → Mode F) (k : Fin 6 → F)
+    (hpi : pi ≠ 0) (hI : I ≠ 0) (i : Fin 3) :
+    dispJump pi I s μ k i - s.b i = sum3 fun j => (chkAL μ k i j - kron i j) * s.b j := by
+  rw [dispJump_eq_chkAL pi I s μ k hpi hI i]
+  fin_cases i <;> simp [sum3, kron] <;> ring
+end defect
+
+section accepted
+variable {K : Type} [Field K] [LinearOrder K] [IsStrictOrderedRing K]
+
+/-- what the first self-check of `Stroh.solve` guarantees when the solver accepts: every entry of `Σ k A⊗L − 1` is within
+    `tol + rtol·δᵢⱼ` (squared modulus, no square root). -/
+theorem accepted_closure_defect (tol rtol cmax : K) (μ : Fin 6 → Mode (Cx K)) (k sk : Fin 6 → Cx K)
+    (h : strohChecksOk tol rtol cmax μ k sk = true) (i j : Fin 3) :
+    Cx.normSq (chkAL μ k i j - ⟨kron i j, 0⟩) ≤ (tol + rtol * kron i j) * (tol + rtol * kron i j) := by
+  simp only [strohChecksOk, Bool.and_eq_true] at h
+  have h1 := h.1.1.1
+  simp only [all3, Bool.and_eq_true, closeToReal, decide_eq_true_eq] at h1
+  fin_cases i <;> fin_cases j <;> simp_all
+
+/-- **for every problem `Stroh.solve` accepts the displacement jump is `b + E b` with `|Eᵢⱼ| ≤ tol + rtol·δᵢⱼ`**: the
+    closure hypothesis of `burgers_closure` replaced by what the solver itself has checked. -/
+theorem accepted_jump_defect (tol rtol cmax : K) (pi I : Cx K) (s : Setup (Cx K)) (μ : Fin 6 → Mode (Cx K))
+    (k sk : Fin 6 → Cx K) (hpi : pi ≠ 0) (hI : I ≠ 0) (h : strohChecksOk tol rtol cmax μ k sk = true) (i : Fin 3) :
+    dispJump pi I s μ k i - s.b i = (sum3 fun j => (chkAL μ k i j - kron i j) * s.b j)
+      ∧ ∀ j, Cx.normSq (chkAL μ k i j - ⟨kron i j, 0⟩) ≤ (tol + rtol * kron i j) * (tol + rtol * kron i j) :=
+  ⟨dispJump_defect pi I s μ k hpi hI i, fun j => accepted_closure_defect tol rtol cmax μ k sk h i j⟩
+
+/-- accepted Miller route: the stored transform takes the unit plane normal to `n` and the unit line to `m × n`. -/
+theorem baseSolve_miller_frame (a : BaseIn K) (out : BaseOut K) (h : baseSolve a = .ok out)
+    (hξ : a.ξ = true) (hn : dot a.nAxis a.nAxis = 1) (hx : dot a.ξAxis a.ξAxis = 1) (hp : dot a.nAxis a.ξAxis = 0) (i : Fin 3) :
+    matVec out.T a.nAxis i = a.n i ∧ matVec out.T a.ξAxis i = cross a.m a.n i := by
+  obtain ⟨_, _, _, T, T2, hT, _, rfl⟩ := (baseSolve_ok_iff a out).1 h
+  have : T = findTransform a.m a.n a.nAxis a.ξAxis := by
+    unfold baseTransform at hT
+    cases hh : a.hkl <;> cases ht : a.transform <;> cases ha : a.axes <;> simp [routeOf, hξ, hh, ht, ha] at hT
+    exact hT.symm
+  subst this
+  exact ⟨find_transform_normal _ _ _ _ hn hp i, find_transform_line _ _ _ _ hx hp i⟩
+
+/-- the generated `K_tensor` is real when the modes come as adjacent conjugate pairs. -/
+theorem gen_K_real (μ : Fin 6 → Mode (Cx K)) (hp : ConjPairs μ) (i j : Fin 3) :
+    (Gen.Stroh.kTensor Cx.I (fun a => kOf (μ a)) (modeL μ) i j).im = 0 := by
+  rw [gen_kTensor_eq_model]; exact K_real_partial μ hp i j
+end accepted
+
 /-! non-vacuity for the API-level theorems -/
 def exBaseIn : BaseIn ℚ where
   tol := 1 / 100000000
